@@ -267,7 +267,7 @@ func family3Case(s f3Spec, mode string) *txCase {
 		{Addr: addrOrigin, Balance: 1000000, Nonce: 5},
 		{Addr: addrA, Balance: balA, Nonce: 1, Code: codeA, Storage: []slot{{wordU(1), wordU(0x11)}}},
 		{Addr: addrB, Balance: 5, Nonce: 1, Code: bodyCode(bodyB, addrC), Storage: []slot{{wordU(1), wordU(0x22)}}},
-		{Addr: addrC, Balance: 5, Nonce: 1, Code: bodyCode(bodyC, addrB), Storage: []slot{{wordU(1), wordU(0x33)}}},
+		{Addr: addrC, Balance: 5, Nonce: 1, Code: bodyCode(bodyC, addrF), Storage: []slot{{wordU(1), wordU(0x33)}}},
 		{Addr: addrF, Balance: 3},
 	}
 	if s.Prestate == "collide" {
@@ -386,7 +386,7 @@ func family3TopCreates(mode string) []*txCase {
 			k := &txCase{Family: "callgraph", Mode: mode, Create: true, Input: bodyCode(b, addrC), Value: v}
 			k.Pre = []account{
 				{Addr: addrOrigin, Balance: 1000000, Nonce: 5},
-				{Addr: addrC, Balance: 5, Nonce: 1, Code: bodyCode("return-ctx", addrB)},
+				{Addr: addrC, Balance: 5, Nonce: 1, Code: bodyCode("return-ctx", addrF)},
 			}
 			k.Label = fmt.Sprintf("creation transaction, init code = %s, value %d", b, v)
 			k.Sig = map[string]string{"family": "callgraph", "config": mode, "op": "TX-CREATE", "via": "TX-CREATE", "leaf": b, "depth": "1", "static": "no"}
